@@ -254,8 +254,9 @@ func Gen(seed int64, index int, o GenOpts) *Case {
 	segMins := []time.Duration{200 * time.Millisecond, 333 * time.Millisecond, 500 * time.Millisecond, time.Second, 1001 * time.Millisecond, 2 * time.Second}
 	c.Cfg.SegMin = segMins[pick(len(segMins))]
 	if o.Profile == "e2e" {
-		// the client's decoder rejects TARGETDURATION:0, i.e. segments shorter than 0.5 s
-		c.Cfg.SegMin = []time.Duration{500 * time.Millisecond, 700 * time.Millisecond, time.Second}[pick(3)]
+		// segments shorter than 0.5 s included: they used to be announced with TARGETDURATION:0,
+		// which the client's decoder rejects (repaired, see KNOWN_FINDINGS.txt)
+		c.Cfg.SegMin = []time.Duration{500 * time.Millisecond, 700 * time.Millisecond, time.Second, 300 * time.Millisecond, 400 * time.Millisecond}[pick(5)]
 		if c.Cfg.SegmentCount < 7 {
 			c.Cfg.SegmentCount = 7
 		}
